@@ -2,15 +2,13 @@
    Examples showing that the hypotheses have non-trivial inhabitants.
 
    NOT proved here (kept visible; exercised by the correspondence run only):
-   (* regular_accepted, full: forall n origin normal spacing s > 0 and EVERY permutation pi of the
-      stack, sort = True gives (s, ranks along +normal composed with pi).  Proved below only in the
-      form C11_regular_accepted_partial (unique positions listed in increasing order, arbitrary
-      unique_index) and C11_unsorted_mode (order as passed). *)
+   (* regular_accepted with a spacing hint, and with allow_missing (gaps): only the soundness direction
+      (C11_gaps_indices, C11_irregular_rejected) is proved. *)
    (* unsorted_mode converse with atol > 0 (a large absolute tolerance can accept a non-monotone order). *)
-   (* order_invariant, full: get_volume_positions (permute pi ps) = permute pi (get_volume_positions ps)
-      and the assembled volume is the same for every input order. *) *)
-From Coq Require Import String ZArith List Bool QArith Permutation Sorted.
-From HD Require Import Base.Val C11_Model C11_Proofs C11_Proofs_Stack C11_Proofs_Sort C11_Proofs_Mono.
+   (* order_invariant for stacks that are NOT regular (the rejection is the same for every order) and
+      for the assembled volume (array and affine) of get_volume_from_series / Image.get_volume. *) *)
+From Coq Require Import String ZArith List Bool QArith Qround Permutation Sorted Lia.
+From HD Require Import Base.Val C11_Model C11_Proofs C11_Proofs_Stack C11_Proofs_Sort C11_Proofs_Mono C11_Proofs_Rank C11_Proofs_Top.
 Import ListNotations.
 Open Scope Q_scope.
 
@@ -125,6 +123,82 @@ Example C11_regular_example :
     [VL [VQ 1; vz_list [3;0;1;2;0]%Z]] = [].
 Proof. vm_compute. reflexivity. Qed.
 Print Assumptions C11_regular_example.
+
+(* ---- regular_accepted, sort = True, ANY input order (with declared duplicates) --------------------- *)
+(* regular_stack nv a s r M L: every position p of L has a rank r p in 0..M-1, its distance along the
+   normal is a + r p * s (s > 0), equal ranks mean equal positions, every rank occurs, and the vector from
+   a rank-0 to a rank-(M-1) plane passes the perpendicularity test.  Then whatever the order of the input
+   (np.unique order, argsort and its inverse included) the answer is spacing s and, for every input plane,
+   its rank along the positive normal. *)
+Theorem C11_regular_accepted : forall ps rowc colc o nv rtol atol a s r M,
+  o_sort o = true -> o_missing o = false -> o_hint o = None ->
+  tolerances (o_rtol o) (o_atol o) = Ok (rtol, atol) -> 0 <= rtol -> 0 <= atol ->
+  normal_vector rowc colc (o_c0 o) (o_c1 o) (o_rh o) = Ok nv ->
+  regular_stack nv a s r M (map vred ps) ->
+  (o_dups o = true \/ length ps = M) ->
+  exists sp, sp == s /\
+    get_volume_positions ps rowc colc o = Ok (Some (sp, map (fun p => Z.of_nat (r p)) (map vred ps))).
+Proof. exact regular_accepted. Qed.
+Print Assumptions C11_regular_accepted.
+
+(* order_invariant (regular stacks): for every permutation of the input every plane keeps its index *)
+Theorem C11_regular_order_invariant : forall ps ps2 rowc colc o nv rtol atol a s r M,
+  o_sort o = true -> o_missing o = false -> o_hint o = None ->
+  tolerances (o_rtol o) (o_atol o) = Ok (rtol, atol) -> 0 <= rtol -> 0 <= atol ->
+  normal_vector rowc colc (o_c0 o) (o_c1 o) (o_rh o) = Ok nv ->
+  regular_stack nv a s r M (map vred ps) ->
+  (o_dups o = true \/ length ps = M) ->
+  Permutation ps ps2 ->
+  exists sp sp2, sp == s /\ sp2 == s /\
+    get_volume_positions ps rowc colc o = Ok (Some (sp, map (fun p => Z.of_nat (r p)) (map vred ps))) /\
+    get_volume_positions ps2 rowc colc o = Ok (Some (sp2, map (fun p => Z.of_nat (r p)) (map vred ps2))).
+Proof. exact regular_order_invariant. Qed.
+Print Assumptions C11_regular_order_invariant.
+
+(* the core statement for unique positions in any order (rank of a permuted arithmetic progression) *)
+Theorem C11_rank_of_permuted_progression : forall uniq uidx nv rtol atol enforce a s ranks,
+  (2 <= length uniq)%nat -> 0 < s -> length ranks = length uniq ->
+  (forall j, (j < length uniq)%nat ->
+     dot nv (nthV uniq j) == a + inject_Z (Z.of_nat (nth j ranks 0%nat)) * s) ->
+  Permutation ranks (seq 0 (length uniq)) ->
+  0 <= rtol -> 0 <= atol ->
+  (forall j0 j1, (j0 < length uniq)%nat -> (j1 < length uniq)%nat ->
+     nth j0 ranks 0%nat = 0%nat -> nth j1 ranks 0%nat = (length uniq - 1)%nat ->
+     is_perp nv (vsub (nthV uniq j1) (nthV uniq j0)) = true) ->
+  exists sp, sp == s /\
+    gvp_core uniq uidx nv rtol atol true false enforce None =
+      Ok (Some (sp, map (fun u => nth u (map Z.of_nat ranks) 0%Z) uidx)).
+Proof. exact core_sorted_any. Qed.
+Print Assumptions C11_rank_of_permuted_progression.
+
+(* non-vacuity: an oblique stack passed out of order with one duplicated plane *)
+Definition ex_stack : list vec3 := [V3 (6#5) (8#5) 0; V3 0 0 0; V3 (3#5) (4#5) 0; V3 0 0 0].
+Definition ex_nv : vec3 := cross (V3 (-4#5) (3#5) 0) (V3 0 0 1).
+Definition ex_rank (p : vec3) : nat := Z.to_nat (Qfloor (dot ex_nv p)).
+Example C11_regular_stack_nonvacuous :
+  normal_vector (V3 (-4#5) (3#5) 0) (V3 0 0 1) DirR DirD true = Ok ex_nv /\
+  regular_stack ex_nv 0 1 ex_rank 3 (map vred ex_stack).
+Proof.
+  split; [vm_compute; reflexivity|].
+  let L := eval vm_compute in (map vred ex_stack) in change (map vred ex_stack) with L.
+  unfold regular_stack. split; [reflexivity|]. split; [apply le_S, le_n|].
+  split; [intros p Hp; repeat (destruct Hp as [<-|Hp]; [vm_compute; reflexivity|]); contradiction|].
+  split.
+  { intros p q Hp Hq; repeat (destruct Hp as [<-|Hp]; [|]); try contradiction;
+      repeat (destruct Hq as [<-|Hq]; [|]); try contradiction; vm_compute; intro E;
+      first [reflexivity|discriminate E]. }
+  split.
+  { intros k Hk. destruct k as [|[|[|k]]].
+    - eexists; split; [right; left; reflexivity|vm_compute; reflexivity].
+    - eexists; split; [right; right; left; reflexivity|vm_compute; reflexivity].
+    - eexists; split; [left; reflexivity|vm_compute; reflexivity].
+    - exfalso. apply (Nat.lt_irrefl 3). eapply Nat.le_lt_trans; [|exact Hk]. apply le_n_S, le_n_S, le_n_S, Nat.le_0_l. }
+  split; [intros p Hp; repeat (destruct Hp as [<-|Hp]; [vm_compute; repeat constructor|]); contradiction|].
+  intros p0 p1 H0 H1; repeat (destruct H0 as [<-|H0]; [|]); try contradiction;
+    repeat (destruct H1 as [<-|H1]; [|]); try contradiction; vm_compute; intros E0 E1;
+    first [reflexivity|discriminate E0|discriminate E1].
+Qed.
+Print Assumptions C11_regular_stack_nonvacuous.
 
 (* ---- irregular_rejected / dups_and_gaps: what every accepted answer satisfies ---------------------- *)
 Theorem C11_accepted_sound : forall ps rowc colc o sp idx,
